@@ -9,6 +9,7 @@ CONSTANTS
     CapN = 2
     Cache = 0
     Compress = FALSE
+    CapProbe = TRUE
     Debug = FALSE
     HookMode = "ok"
 VIEW View
